@@ -111,7 +111,20 @@ class MethodSummary:
         base = v.func.value
         args = [unparse(a) for a in v.args]
         if v.keywords:
-            args += [f"{k.arg}={unparse(k.value)}" for k in v.keywords]
+            # dispatch(phi=roll, ..., v=self): put the keywords in the dispatcher's own parameter order; the call means the same
+            params = None
+            if isinstance(base, ast.Name) and base.id in self.imports:
+                g, nm = self.imports[base.id]
+                try:
+                    df = facts(f"src/vector/_compute/{g}/{nm}.py").functions.get("dispatch")
+                    params = [a.arg for a in df.args.args] if df is not None else None
+                except (AnalysisError, OSError):
+                    params = None
+            kw = {k.arg: unparse(k.value) for k in v.keywords}
+            if params is not None and None not in kw and set(kw) == set(params[len(args):]):
+                args += [kw[p_] for p_ in params[len(args):]]
+            else:
+                args += [f"{k.arg}={unparse(k.value)}" for k in v.keywords]
         if isinstance(base, ast.Name):
             imp = self.imports.get(base.id)
             if imp is None:
